@@ -984,6 +984,8 @@ class Inliner:
           new = None
       if new is None:
         new = self._splice_generator(f, st)
+      if new is None:
+        new = self._collect_generator(f, st)
       if new is not None:
         out.extend(new)
         continue
@@ -997,6 +999,55 @@ class Inliner:
         hd.body = self._expand_stmts(f, hd.body)
       out.append(st)
     return out
+
+  def _collect_generator(self, f, st):
+    """`x = dict(gen(args))` / `list(gen(args))` / `tuple(...)`-free forms
+    with a generator helper: `x = {}; for k, v in gen(args): x[k] = v` (resp.
+    `x = []; for e in gen(args): x.append(e)`), the loop then spliced."""
+    if not (isinstance(st, ast.Assign) and len(st.targets) == 1 and isinstance(
+        st.targets[0], ast.Name) and isinstance(st.value, ast.Call) and
+            isinstance(st.value.func, ast.Name) and
+            st.value.func.id in ('dict', 'list') and len(st.value.args) == 1
+            and not st.value.keywords and isinstance(st.value.args[0],
+                                                     ast.Call)):
+      return None
+    inner = st.value.args[0]
+    h = self._callee(inner, f, generator=True)
+    if h is None or not any(isinstance(x, (ast.Yield, ast.YieldFrom))
+                            for x in _own_nodes(h.node)):
+      return None
+    x = st.targets[0].id
+    if any(isinstance(n, ast.Name) and n.id == x for n in ast.walk(inner)):
+      return None
+    self._tmp = getattr(self, '_tmp', 0) + 1
+    if st.value.func.id == 'dict':
+      k, v = f'key__collect_{self._tmp}', f'value__collect_{self._tmp}'
+      init = ast.Assign(targets=[ast.Name(id=x, ctx=ast.Store())],
+                        value=ast.Dict(keys=[], values=[]))
+      body = [ast.Assign(
+          targets=[ast.Subscript(value=ast.Name(id=x, ctx=ast.Load()),
+                                 slice=ast.Name(id=k, ctx=ast.Load()),
+                                 ctx=ast.Store())],
+          value=ast.Name(id=v, ctx=ast.Load()))]
+      target = ast.Tuple(elts=[ast.Name(id=k, ctx=ast.Store()),
+                               ast.Name(id=v, ctx=ast.Store())],
+                         ctx=ast.Store())
+    else:
+      e = f'item__collect_{self._tmp}'
+      init = ast.Assign(targets=[ast.Name(id=x, ctx=ast.Store())],
+                        value=ast.List(elts=[], ctx=ast.Load()))
+      body = [ast.Expr(value=ast.Call(
+          func=ast.Attribute(value=ast.Name(id=x, ctx=ast.Load()),
+                             attr='append', ctx=ast.Load()),
+          args=[ast.Name(id=e, ctx=ast.Load())], keywords=[]))]
+      target = ast.Name(id=e, ctx=ast.Store())
+    loop = ast.For(target=target, iter=inner, body=body, orelse=[])
+    _fix(init, st)
+    _fix(loop, st)
+    spliced = self._splice_generator(f, loop)
+    if spliced is None:
+      return None
+    return [init] + spliced
 
   def run(self):
     order = [f for f in self.p.funcs.values()
